@@ -6,7 +6,7 @@ wt=/tmp/seedchk/re-$name-$$
 mkdir -p /tmp/seedchk
 git -C /repo worktree add -q --detach $wt HEAD
 trap 'git -C /repo worktree remove --force '$wt' >/dev/null 2>&1; rm -rf '$wt'' EXIT
-git -C $wt apply /verif/seeded/$name/patch.diff
+git -C $wt apply --3way /verif/seeded/$name/patch.diff 2>/dev/null || git -C $wt apply /verif/seeded/$name/patch.diff
 cd /verif
 VERIF_REPO=$wt timeout 3000 ./check $chk --tier $tier 2>&1 | grep -E "^OK|^VIOLATION|^UNDECIDED|^KNOWN|^NOTE" | cut -c1-220 | head -6
 f=$(ls -t /verif/replays/$chk/*.json 2>/dev/null | head -1)
